@@ -35,6 +35,8 @@ class TaggedUGrammar(UGrammar[U, V, W], Generic[T, U, V, W]):
         self.grammar = grammar
         self.tags = tags
         self.start_tags = start_tags
+        # keep the type request the grammar was built for
+        self.type_request = grammar.type_request
 
     def programs(self) -> int:
         return self.grammar.programs()
